@@ -142,6 +142,7 @@ class VThread:
         self.exc = None
         self.result = None
         self.wake = None
+        self.intr = False         # a signal is pending for this vthread
         self.nopreempt = 0        # >0: line-level points are suppressed
         self.local = {}           # per-vthread scratch for shims
         self.trace = []           # results observed at points (state identity)
@@ -173,7 +174,7 @@ class VThread:
         p = self.pending
         if self.state != 'parked':
             return False
-        if self.killed:
+        if self.killed or self.intr:
             return True
         if p.enabled is None:
             return p.deadline is None or now >= p.deadline
@@ -209,6 +210,7 @@ class Scheduler:
         self.auto = False
         self.error = None
         self._until = None
+        self.intr_handler = None          # f(vt): run pending signal handlers
 
     # ------------------------------------------------------------ vthreads
     def spawn(self, fn, name=None, pid=None, daemon=False):
@@ -229,28 +231,41 @@ class Scheduler:
         if vt.killed:
             raise ProcessKilled()
         vt.pending = Pending(op, obj, enabled, deadline)
-        vt.state = 'parked'
-        if self.auto:
-            # the scheduling decision is taken here, in the parking thread:
-            # continuing the same vthread costs no context switch at all
-            nxt = self._pick()
-            if nxt is None:
+        while True:
+            vt.state = 'parked'
+            if self.auto:
+                # the scheduling decision is taken here, in the parking
+                # thread: continuing the same vthread costs no context switch
+                nxt = self._pick()
+                if nxt is None:
+                    self._ctl.release()
+                    vt.baton.acquire()
+                elif nxt[0] is vt:
+                    vt.wake = nxt[1]
+                else:
+                    nxt[0].wake = nxt[1]
+                    nxt[0].baton.release()
+                    vt.baton.acquire()
+            else:
                 self._ctl.release()
                 vt.baton.acquire()
-            elif nxt[0] is vt:
-                vt.wake = nxt[1]
-            else:
-                nxt[0].wake = nxt[1]
-                nxt[0].baton.release()
-                vt.baton.acquire()
-        else:
-            self._ctl.release()
-            vt.baton.acquire()
-        vt.state = 'running'
-        if vt.killed:
-            raise ProcessKilled()
-        w, vt.wake = vt.wake, None
-        return w
+            vt.state = 'running'
+            if vt.killed:
+                raise ProcessKilled()
+            w, vt.wake = vt.wake, None
+            if vt.intr:
+                # a signal handler runs here, inside the interrupted call;
+                # it may raise (the call is abandoned) or return (PEP 475:
+                # the call is retried)
+                vt.intr = False
+                if self.intr_handler is not None:
+                    self.intr_handler(vt)
+                if w is not TIMEOUT and enabled is not None and not enabled():
+                    continue
+                if w is not TIMEOUT and enabled is None and \
+                        deadline is not None and self.now < deadline:
+                    continue
+            return w
 
     def _thread_done(self, vt):
         if self.auto:
@@ -289,12 +304,14 @@ class Scheduler:
             raise HarnessError('step on %r' % vt)
         p = vt.pending
         wake = None
-        if not vt.killed and p.enabled is not None and not p.enabled():
+        if vt.killed or vt.intr:
+            pass
+        elif p.enabled is not None and not p.enabled():
             if p.deadline is None:
                 raise HarnessError('step on disabled %r' % vt)
             self.now = max(self.now, p.deadline)
             wake = TIMEOUT
-        elif not vt.killed and p.enabled is None and p.deadline is not None:
+        elif p.enabled is None and p.deadline is not None:
             self.now = max(self.now, p.deadline)
             wake = TIMEOUT
         self._resume(vt, wake)
@@ -411,6 +428,7 @@ class Scheduler:
             p = vt.pending
             wake = None
             if (not vt.killed and p.deadline is not None and
+                    self.now >= p.deadline and
                     (p.enabled is None or not p.enabled())):
                 wake = TIMEOUT
             return vt, wake
